@@ -97,8 +97,15 @@ def monitor(o, het_names):
     import signal
     out = []
     real_signals = set(int(s) for s in signal.Signals)
+    # groups in ascending numeric priority, ties by name (0 and negative priorities are priorities)
+    gkeys = [(g.priority, g.name) for g in o.process_group_configs]
+    if all(isinstance(k[0], int) and not isinstance(k[0], bool) for k in gkeys) and gkeys != sorted(gkeys):
+        out.append((None, 'process groups are not ordered by (priority, name): %r' % (gkeys,)))
     for g in o.process_group_configs:
         names = [p.name for p in g.process_configs]
+        pkeys = [(p.priority, p.name) for p in g.process_configs]
+        if g.name not in het_names and all(isinstance(k[0], int) for k in pkeys) and pkeys != sorted(pkeys):
+            out.append((None, 'processes of group %r are not ordered by (priority, name): %r' % (g.name, pkeys[:6])))
         if g.name not in het_names and len(set(names)) != len(names):
             out.append(('C14-process-num-not-expanded', 'group %r has processes with equal names %r' % (g.name, names[:4])))
         for p in g.process_configs:
@@ -331,6 +338,8 @@ def conv_cases(chk):
             want = [('T', 'ok')] + okf(r)
         except ValueError:
             want = [('T', 'err'), ('T', errkind)]
+        except Exception as e:
+            want = [('T', 'err'), ('T', 'OTHER-EXCEPTION-' + type(e).__name__)]
         cases.append('(%s, %s, %s)' % (c14_cfg.cstr(conv), c14_cfg.cstr(s), c14_cfg.catoms(want)))
         meta.append((conv, s, want))
     ialpha = ['1', '0', '7', '9', '_', '-', '+', ' ', 'x', '.', 'o']
@@ -340,6 +349,7 @@ def conv_cases(chk):
         ints = [s for i, s in enumerate(ints) if len(s) <= 3 or i % 12 == chk.seed % 12]
     else:
         ints = [s for i, s in enumerate(ints) if len(s) <= 4 or i % 8 == chk.seed % 8]
+    ints += ['2.7', '1.5', '1e1', '1E3', 'inf', '-inf', 'nan', 'Infinity', '1e400', '0.0', '3.', '.5', '1_0.0', '-0.0', '+1e0']
     for s in ints:
         add('integer', dt.integer, s, lambda r: [('Z', r)], 'int')
         add('octal_type', dt.octal_type, s, lambda r: [('Z', r)], 'octal')
@@ -770,8 +780,10 @@ def _run(chk, wd, proved):
         if r[0] == 'err':
             chk.dist('outcome:ValueError:' + r[1])
             if r[1] == 'UNCLASSIFIED':
-                replay.update(kind='ValueError with a message this check does not know', message=r[2])
-                chk.violation(replay, nofail=True)
+                counters['unclassified'] = counters.get('unclassified', 0) + 1
+                if counters['unclassified'] <= 3:
+                    replay.update(kind='ValueError with a message this check does not know', message=r[2])
+                    chk.violation(replay, nofail=True)
                 clean(here)
                 return
             atoms = [('T', 'err'), ('T', r[1])]
@@ -1000,6 +1012,8 @@ def _run(chk, wd, proved):
     if not proved:
         chk.violation({'kind': 'proof obligation no longer checks', 'detail': chk.proof_failure,
                        'file': 'coq/props/C14.v'}, nofail=not chk.violations)
+    # violations that carry a failing input are reported first (the driver prints the first 20)
+    chk.violations.sort(key=lambda v: bool(v[1]))
     cov = chk.coverage
     cov['evaluations'] = total + ntext + nserver + nbool
     cov['distinct_nontrivial'] = len(distinct)
